@@ -103,7 +103,7 @@ _note = ('Bounds: exhaustive over every set of <=3 (quick) / <=4 (thorough) of t
 _t = 'TLA+ spec + TLC exhaustive; gate replay of TLC behaviours on real goroutines (natural gates + verif hooks); observable-only monitors'
 META = {
     'C04': dict(level='model_checking', text='SubLifecycle.tla models reservation/commit/rollback with generations, the unsubscribe wait gate and generation-matched delete, close, hub entries; invariant: once settled, subscribed <=> exactly one routing entry of that generation. Replayed on real clients thread by thread; at the end the connection is probed with a marker publication (received exactly once iff it reports subscribed) and Hub.NumSubscribers.', note=_note, technique=_t),
-    'C05': dict(level='model_checking', text='Same spec: after close in any interleaving with subscribe/unsubscribe/tick no channel entry, routing entry, registered connection or presence entry remains; checked on the real node after each complete behaviour that closes. Shared-poll track path: TrackClose.tla (track command as validate / callbacks / manager / commit / reply / keyed-hub join interleaved with close, unsubscribe, resubscribe), replayed with the command parked in the application callbacks; after the end the backend must no longer be polled for the connection's keys.', note=_note + ' Track path: one key, 120 (quick) simulated behaviours + two witness schedules.', technique=_t),
+    'C05': dict(level='model_checking', text='Same spec: after close in any interleaving with subscribe/unsubscribe/tick no channel entry, routing entry, registered connection or presence entry remains; checked on the real node after each complete behaviour that closes. Shared-poll track path: TrackClose.tla (track command as validate / callbacks / manager / commit / reply / keyed-hub join interleaved with close, unsubscribe, resubscribe), replayed with the command parked in the application callbacks; after the end the backend must no longer be polled for the keys of that connection.', note=_note + ' Track path: one key, 120 (quick) simulated behaviours + two witness schedules.', technique=_t),
     'C06': dict(level='model_checking', text='Same spec with the presence manager as a gate: after the operations settled and one presence tick ran, presence contains the connection iff it is subscribed.', note=_note + ' Statistics clause: spec/Presence (add/remove/read sequences over 3 clients x 2 users x 2 channels) replayed on the MemoryPresenceManager; Redis presence manager not observable here.', technique=_t),
     'C07': dict(level='model_checking', text='Same spec, join/leave observed where they reach the broker: per subscription one join before at most one leave; observably every prefix has at least as many joins as leaves and joins-leaves = 1 iff still subscribed.', note=_note, technique=_t),
     'C26': dict(level='model_checking', text='Same spec with Broker.Subscribe/Unsubscribe as gates and the dissolver job: local subscribers imply a broker subscription outside the addSubscription critical section; after jobs drain broker-subscribed <=> local subscribers.', note=_note + ' Broker call failures/retries not modelled.', technique=_t),
